@@ -68,7 +68,7 @@ PROPS = {
     "C04": {
         "lean_modules": ["Props.C04"],
         "harness": [
-            {"sub": "faults", "quick": {"cases": 16}, "thorough": {"cases": 300, "max-txs": 9}, "timeout": 7000},
+            {"sub": "faults", "quick": {"cases": 40}, "thorough": {"cases": 400, "max-txs": 9}, "timeout": 7000},
             WITNESS,
         ],
         "rule": "for each generated block: every database key touched by the in-order run or by a speculative grevm run x {persistent, fail-once} is injected into the pre-state database; oracle = in-order revm on the same faulty database; persistent: equal status/outcomes/bundle (or the fault is avoided and the fault-free result is produced); fail-once: absorbed (fault-free result) or reported as that fault with the exact in-order prefix of outcomes and state; plus the deterministic witnesses F2/F5 under directed schedules",
@@ -76,7 +76,7 @@ PROPS = {
         "modelled": ["post_execute abort-reason mapping", "execute_sequential_suffix prefix preservation", "error branch of execute_task"],
         "assumptions": ["fault injection wraps DatabaseRef of the pre-state only"],
         "partial": ["error_branch_start_partial: the decision logic; that an attempt started at the commit head reads only final state is the pipeline theorem (C02)"],
-        "explanation": "Theorems replay_error_prefix, post_execute_returns, error_branch_start_partial; fault enumeration against the oracle; findings F2, F5 repaired (witnesses run every time), F4 open.",
+        "explanation": "Theorems replay_error_prefix, post_execute_returns, error_branch_start_partial, head_attempt_is_in_order, fatal_only_if_in_order_fatal (a fatal abort is raised only when in-order execution of that transaction is fatal), f7_unchecked_head_attempt_violates; fault enumeration against the oracle; findings F2, F4, F5, F7 repaired (F2/F5 witnesses run every time).",
     },
     "C05": {
         "lean_modules": ["Props.C05", "Props.C16", "Props.C17", "Props.C15"],
